@@ -62,6 +62,13 @@ CLAIMED.update({
    "SSA symbolic execution with symbolic scheduler + SMT, native replay"),
 })
 
+CLAIMED.update({
+ "C02": ("DESIGN.md 5/C02",
+   "2 (thorough 3) concurrent writers on one Value/Collection executed in the symbolic concurrency runtime under every interleaving of their lock/unlock/channel operations with symbolic data: delta interceptors lose no increment, compare-and-set admits at most one winner, two Adds of one id never both succeed, Delete-with-expectation vs Update only in legal orders; losers report one of the race statuses.",
+   "Trusted: symgo concurrency runtime (RWMutex without writer preference, sleep-set reduction, DRF between sync ops), protobuf model, z3. Counterexamples are confirmed natively by stress replay (up to 400 runs) because the native scheduler cannot be forced without hooks.",
+   "SSA symbolic execution with symbolic scheduler + SMT, native stress replay"),
+})
+
 NOT_YET = {}
 
 NA = {
